@@ -2,7 +2,7 @@ SPECIFICATION Spec
 CONSTANTS
   NX = 4
   Limit = 2
-  Ends = {"complete", "cut", "extra", "close-header", "drop"}
+  Ends = {"complete", "cut", "extra", "close-header", "drop", "hcut"}
   DEV_EofIsCleanEnd = TRUE
 INVARIANTS WithinLimit NoDirtyReuse CompleteOrError EmitCase
 CHECK_DEADLOCK FALSE
